@@ -821,6 +821,34 @@ def rule_t9(repo, col):
     col.floor("T9.operand_cases", n, 18)
 
 
+def rule_t10(repo, col):
+    """PrologFactory.build_unop folds a prefix minus into a literal only for NUMBERS: the path that returns Constant(-operand.value) establishes is_float() or is_integer()
+    (a string constant is a constant too, and -"abc" is a TypeError inside the parser)"""
+    from .. import dtable
+
+    c = repo.cls("problog.program", "PrologFactory")
+    f = c.methods.get("build_unop")
+    if f is None:
+        raise AnalysisError("PrologFactory.build_unop missing")
+    m = f.module
+    operand = f.params[2]
+    n = 0
+    bad = []
+    for p_ in dtable.extract(f.node, opaque_loops=True):
+        if p_.end != "return" or p_.value is None or "-%s.value" % operand not in p_.value.replace(" ", ""):
+            continue
+        n += 1
+        cd = dict((s_, t_) for s_, t_, _ in p_.conds)
+        numeric = cd.get("%s.is_float()" % operand) is True or cd.get("%s.is_integer()" % operand) is True or cd.get("%s.is_string()" % operand) is False
+        if not numeric:
+            bad.append(sorted(cd.items()))
+    if n == 0:
+        raise AnalysisError("build_unop: folding of a signed literal not found")
+    col.decide("T10", m, f.node, not bad, "a prefix minus is folded into a literal only when the operand is a number",
+               "build_unop returns Constant(-%s.value) on a path that does not establish that the operand is a number (%s): for q(- \"abc\"). the parser then raises TypeError "
+               "instead of returning the term '-'(\"abc\") or a ParseError" % (operand, bad[0] if bad else ""), construct="build_unop: sign folded into a non-numeric constant", function="PrologFactory.build_unop")
+
+
 def run(repo, col):
     col.rule("T1", "dispatch-table coverage of the tokenizer")
     col.rule("T2", "guard before look-ahead index")
@@ -840,3 +868,5 @@ def run(repo, col):
     rule_t8(repo, col)
     col.rule("T9", "And / Or printing: operands that would regroup are parenthesised")
     rule_t9(repo, col)
+    col.rule("T10", "a prefix minus is folded into numeric literals only")
+    rule_t10(repo, col)
